@@ -124,6 +124,8 @@ type Options struct {
 const (
 	defaultMaxProofs = 1
 	defaultMaxDepth  = 64
+	// noCut is the value of explainer.lowCut when no cycle has been cut.
+	noCut = int(^uint(0) >> 1)
 )
 
 // ErrNoProof indicates that no proof was found for the goal. The goal may
@@ -156,7 +158,8 @@ func Explain(program *analysis.ProgramInfo, store factstore.ReadOnlyFactStore, g
 		store:   store,
 		opts:    opts,
 		cache:   make(map[uint64][]*ProofNode),
-		onStack: make(map[uint64]bool),
+		onStack: make(map[uint64]int),
+		lowCut:  noCut,
 		ruleIDs: make(map[int]string),
 	}
 	proofs := e.explain(goal, 0)
@@ -173,8 +176,12 @@ type explainer struct {
 	// cache memoizes proofs per ground goal hash. Avoids recomputing proofs
 	// of facts that appear as premises in multiple parent proofs.
 	cache map[uint64][]*ProofNode
-	// onStack tracks goals currently being proved to break cycles.
-	onStack map[uint64]bool
+	// onStack maps the goals currently being proved to their position on the
+	// stack, to break cycles.
+	onStack map[uint64]int
+	// lowCut is the lowest stack position of a goal at which a cycle was cut
+	// while proving the current goal, or noCut.
+	lowCut int
 	// ruleIDs memoizes content-addressed rule IDs keyed by index in program.Rules.
 	ruleIDs map[int]string
 }
@@ -187,11 +194,18 @@ func (e *explainer) explain(goal ast.Atom, depth int) []*ProofNode {
 	if cached, ok := e.cache[h]; ok {
 		return cached
 	}
-	if e.onStack[h] {
+	if pos, ok := e.onStack[h]; ok {
+		// Cycle: everything proved between that goal and here depends on this cut.
+		if pos < e.lowCut {
+			e.lowCut = pos
+		}
 		return nil
 	}
-	e.onStack[h] = true
+	pos := len(e.onStack)
+	e.onStack[h] = pos
 	defer delete(e.onStack, h)
+	outerCut := e.lowCut
+	e.lowCut = noCut
 
 	var proofs []*ProofNode
 
@@ -232,7 +246,15 @@ func (e *explainer) explain(goal ast.Atom, depth int) []*ProofNode {
 		}
 	}
 
-	e.cache[h] = proofs
+	// A failure to find a proof is only final if no cycle was cut at a goal
+	// further down the stack: otherwise the goal may well have a proof once
+	// that goal is no longer being proved, and the empty result is not memoized.
+	if len(proofs) > 0 || e.lowCut >= pos {
+		e.cache[h] = proofs
+	}
+	if outerCut < e.lowCut {
+		e.lowCut = outerCut
+	}
 	return proofs
 }
 
